@@ -222,7 +222,7 @@ def check_gray(rep, spec, base):
         except Exception as e:
             ok, obs = False, f"{type(e).__name__}: {e!r}"
         if not ok:
-            rep("GrayImageStack.__getitem__", "gray-pixel-or-patch", dict(spec, key=repr(key)), obs, describe(np.asarray(exp)), variant=obs.split(":")[0])
+            rep("GrayImageStack.__getitem__ (via read_images)", "gray-pixel-or-patch", dict(spec, key=repr(key)), obs, describe(np.asarray(exp)), variant=obs.split(":")[0])
 
 
 def check_raster_file(rep, spec, base):
